@@ -85,7 +85,8 @@ m("c17-wrong-token-offset", ["C17", "C18"], "stochastic_atom_graph.py", "       
 m("c17-source-weight", ["C17"], "stochastic_atom_graph.py", "                                stochastic_weight=other_bd.weight,", "                                stochastic_weight=graph_bd.weight,")
 m("c17-static-bond-order-lost", ["C17", "C18"], "stochastic_atom_graph.py", "                    bond_type=int(static_bonds[other_idx].GetBondType()),", "                    bond_type=1,")
 # ---- C18
-m("c18-termination-fill-reverted", ["C18"], "graph_generate.py", "            self._fill_static_edges(last_node_id)\n\n            node_data = self.graph.nodes[node]", "\n            node_data = self.graph.nodes[node]")
+m("c18-termination-fill-reverted", ["C18"], "graph_generate.py", "            self._fill_static_edges(last_node_id, reactive=False)\n", "\n")
+m("c18-terminating-group-stays-reactive", ["C18"], "graph_generate.py", "            self._fill_static_edges(last_node_id, reactive=False)\n", "            self._fill_static_edges(last_node_id)\n")
 m("c18-rng-not-used-for-stochastic-pick", ["C18"], "graph_generate.py", "        idx = self.rng.choice(len(stochastic_edges), p=weights)", "        idx = np.random.default_rng().choice(len(stochastic_edges), p=weights)")
 # ---- C19
 m("c19-start-mass-counted-again", ["C19"], "mol_prob.py", "            if isinstance(self._big.elements[self._active_element], SmilesToken):\n                self._element_weights[self._active_element] += pattern_mw", "            if True:\n                self._element_weights[self._active_element] += pattern_mw")
